@@ -45,7 +45,15 @@ Definition expected_leak (p : point) (e : eshape) : bool :=
   end.
 
 (* case: point, injected shape, observed code, observed "address found in the captured text" *)
-Definition chk (c : point * jshape * N * bool) : bool :=
+Definition chk_err (c : point * jshape * N * bool) : bool :=
   let '(p, j, oc, ol) := c in
   ((expected p (dec j) =? oc) || (match p with PStatsAsync => oc =? 0 | _ => false end)) &&
   Bool.eqb (expected_leak p (dec j)) ol.
+
+(* gate case: class of the LOG_CLIENT_IP value (0 unset/empty, 1 true spelling, 2 false spelling,
+   3 other), observed "the address-printing site printed the address" *)
+Definition dec_env (n : N) : envval := match n with 0 => EVUnset | 1 => EVTrue | 2 => EVFalse | _ => EVOther end.
+Definition chk_gate (c : N * bool) : bool := let '(v, present) := c in Bool.eqb (gate (dec_env v)) present.
+
+Inductive lcase := LErr (c : point * jshape * N * bool) | LGate (c : N * bool).
+Definition chk (c : lcase) : bool := match c with LErr x => chk_err x | LGate x => chk_gate x end.
